@@ -613,3 +613,5 @@ for _k, (_lt, _te) in _R3.items():
     CHECKS[_k]["level_text"] += _lt
     CHECKS[_k]["technique"] += _te
 CHECKS["C09"]["required_classes"]["all"] += ["operation-after-a-failed-fsync-acknowledged-and-durable"]
+CHECKS["C19"]["required_classes"]["all"] = CHECKS["C19"].get("required_classes", {}).get("all", []) + ["hooks-dir-changed-at-run-time:dir-ww", "hooks-dir-changed-at-run-time:add-exec"]
+CHECKS["C19"]["level_text"] += " The hooks directory also changes while the agent runs (hooks added, removed, chmod +x / -x, directory made world-writable and safe again): eligibility is judged per round."
